@@ -106,7 +106,7 @@ M0 == [ reqs |-> EmptyFn,   \* request id -> record (parameters, st \in {"open",
 NewHold(r, t) == [ lid |-> r.lid, depth |-> 1, cnt |-> r.cnt, rc |-> r.rc, rids |-> {r.id},
                    lo |-> IF Bit(r.ef, EF_UNLIMITED) THEN INF ELSE t + ExpriedS(r),
                    hi |-> IF Bit(r.ef, EF_UNLIMITED) THEN INF ELSE t + ExpriedS(r),
-                   short |-> FALSE, ms |-> Bit(r.ef, EF_MS), since |-> t ]
+                   short |-> FALSE, ms |-> Bit(r.ef, EF_MS), since |-> t, aof |-> FALSE ]
 
 -----------------------------------------------------------------------------
 \* event: begin / end of one recorded history
@@ -128,7 +128,7 @@ StepEnd(mm, e) ==
 StepReq(mm, e) ==
     LET r == [id |-> e.id, conn |-> e.conn, cmd |-> e.cmd, db |-> e.db, key |-> e.key, lid |-> e.lid, flag |-> e.flag,
               tf |-> e.tf, ef |-> e.ef, to |-> e.to, ex |-> e.ex, cnt |-> e.cnt, rc |-> e.rc, t |-> e.t,
-              st |-> "open", tq |-> 0, nterm |-> 0]
+              st |-> "open", tq |-> 0, nterm |-> 0, ldr |-> (mm.status = 1)]
     IN [mm EXCEPT !.reqs = SetFn(@, e.id, r), !.t = e.t]
 
 StepRet(mm, e) ==
@@ -238,7 +238,11 @@ LockExpried(mm, e, r, k) ==
                 m1 == Check(mm, h.ms \/ e.t >= h.lo, "C06", "expired-early", e,
                             [rid |-> r.id, lid |-> h.lid, t |-> e.t, notbefore |-> h.lo])
                 m2 == Check(m1, h.lo < INF, "C06", "unlimited-hold-expired", e, [rid |-> r.id, lid |-> h.lid])
-            IN [m2 EXCEPT !.holds = SetFn(@, k, RemoveIdx(H, i))]
+                \* C10: a node that is not the leader does not end a replicated (persisted) hold on its own clock
+                \* before 300 s past the deadline
+                m3 == Check(m2, mm.status = 1 \/ ~h.aof \/ e.t >= h.lo + 300, "C10", "non-leader-expired-replicated-hold", e,
+                            [rid |-> r.id, lid |-> h.lid, t |-> e.t, deadline |-> h.lo])
+            IN [m3 EXCEPT !.holds = SetFn(@, k, RemoveIdx(H, i))]
 
 \* a queued lock request answered TIMEOUT / cancelled (UNLOCK_ERROR)
 LockTimeout(mm, e, r, k) ==
@@ -259,8 +263,10 @@ StepLockReply(mm, e, r, k) ==
                   [] e.res = TIMEOUT -> LockTimeout(m2, e, r, k)
                   [] OTHER -> DropFromWq(m2, k, r.id)
           \* C10: a node that is not the leader decides nothing
-          m4 == IF mm.status # 1
-                THEN Check(m3, e.res = STATE_ERROR, "C10", "non-leader-answered-lock", e, [rid |-> r.id, res |-> e.res])
+          m4 == IF ~r.ldr
+                \* (the concurrent-check fast path refuses with TIMEOUT from the local - replicated - state before the
+                \*  role is looked at; it grants, queues and releases nothing and a leader in that state answers the same)
+                THEN Check(m3, e.res = STATE_ERROR \/ (Bit(r.flag, F_CONC) /\ r.to = 0 /\ e.res = TIMEOUT), "C10", "non-leader-answered-lock", e, [rid |-> r.id, res |-> e.res])
                 ELSE m3
       IN CheckCounts(m4, e, k)
 
@@ -310,7 +316,7 @@ StepUnlockReply(mm, e, r, k) ==
                 [] e.res \in {UNLOCK_ERROR, UNOWN_ERROR} -> UnlockRefused(m2, e, r, k)
                 [] e.res = LOCKED_ERROR -> UnlockCancelled(m2, e, r, k)
                 [] OTHER -> m2
-        m4 == IF mm.status # 1
+        m4 == IF ~r.ldr
               THEN Check(m3, e.res = STATE_ERROR \/ (e.res = UNLOCK_ERROR /\ HoldsOf(mm, k) = <<>>), "C10", "non-leader-answered-unlock", e,
                          [rid |-> r.id, res |-> e.res])
               ELSE m3
@@ -397,10 +403,32 @@ StepSnap(mm0, e) ==
               THEN Check(m4, AllKeys = 0 /\ e.nkeys = 0 /\ e.tw = 0 /\ e.ew = 0 /\ Len(e.keys) = 0, "C17", "not-reclaimed-after-drain", e,
                          [keycount |-> AllKeys, live_keys |-> e.nkeys, live_timeout_entries |-> e.tw, live_expiry_entries |-> e.ew])
               ELSE m4
-    IN IF mm.seq /\ mm.status = 1 THEN m5 ELSE m1
+        \* learn which holds are persisted / replicated (needed by the C10 expiry clause)
+        AofOf(kk, lid) == LET I == {i \in K : <<e.keys[i].db, e.keys[i].key>> = kk} IN
+                          IF I = {} THEN FALSE
+                          ELSE LET ks == e.keys[CHOOSE i \in I : TRUE]
+                                   J == {j \in 1..Len(ks.holders) : ks.holders[j].lid = lid}
+                               IN IF J = {} THEN FALSE ELSE ks.holders[CHOOSE j \in J : TRUE].aof
+        learn(x) == [x EXCEPT !.holds = [kk \in DOMAIN x.holds |-> [j \in 1..Len(x.holds[kk]) |->
+                                             [x.holds[kk][j] EXCEPT !.aof = x.holds[kk][j].aof \/ AofOf(kk, x.holds[kk][j].lid)]]]]
+        \* C10: while the node is not the leader its holds and queue are exactly what the events explain
+        \* (nothing granted, queued or released on its own)
+        SnapLids(kk) == LET I == {i \in K : <<e.keys[i].db, e.keys[i].key>> = kk} IN
+                        IF I = {} THEN {} ELSE {e.keys[CHOOSE i \in I : TRUE].holders[j].lid : j \in 1..Len(e.keys[CHOOSE i \in I : TRUE].holders)}
+        MonLids(kk) == {mm.holds[kk][j].lid : j \in 1..Len(mm.holds[kk])}
+        AllK == (DOMAIN mm.holds) \cup {<<e.keys[i].db, e.keys[i].key>> : i \in K}
+        Diff == {kk \in AllK : SnapLids(kk) # (IF kk \in DOMAIN mm.holds THEN MonLids(kk) ELSE {})}
+        m6 == IF mm.status # 1 /\ mm.seq
+              THEN Check(m1, Diff = {}, "C10", "non-leader-holds-changed", e, [keys |-> SetToSeq(Diff)])
+              ELSE m1
+    IN learn(IF mm.seq /\ mm.status = 1 THEN m5 ELSE m6)
 
 -----------------------------------------------------------------------------
-StepStatus(mm, e) == [mm EXCEPT !.status = e.status, !.t = e.t]
+\* role change: the upper expiry bound of C06 is claimed on a leader only; holds that live through a
+\* non-leader period are re-armed by the follower rule, so their lateness is not judged any more
+StepStatus(mm, e) ==
+    [mm EXCEPT !.status = e.status, !.t = e.t,
+               !.holds = [kk \in DOMAIN mm.holds |-> [j \in 1..Len(mm.holds[kk]) |-> [mm.holds[kk][j] EXCEPT !.hi = INF]]]]
 
 Step(mm, e) ==
     CASE e.e = "begin"  -> StepBegin(mm, e)
